@@ -279,7 +279,7 @@ func ruleC16SharedWrapper(c *Ctx) {
 		// every path from entry to this return takes the typeassert-ok edge or passes sessionInjectEncryption(s, &sharedEncryption{..})
 		found, tr := pathSearchAt(ld.Blocks[0], 0, func(i ssa.Instruction) pathAction {
 			if staticCallee(i) == inject && inject != nil {
-				if a := allocOf(callOf(i).Args[1]); a != nil && typeIsNamed(a.Type(), pkgApp, "sharedEncryption") {
+				if a, _ := litOf(callOf(i).Args[1]); a != nil && typeIsNamed(a.Type(), pkgApp, "sharedEncryption") {
 					fl := litFields(a)
 					if _, has := fl["mu"]; has {
 						if _, has2 := fl["cond"]; has2 {
@@ -292,7 +292,7 @@ func ruleC16SharedWrapper(c *Ctx) {
 			}
 			if st, ok := i.(*ssa.Store); ok {
 				if _, fld, isF := fieldAccess(st.Addr); isF && fld == "encryption" {
-					if a := allocOf(st.Val); a != nil && typeIsNamed(a.Type(), pkgApp, "sharedEncryption") {
+					if a, _ := litOf(st.Val); a != nil && typeIsNamed(a.Type(), pkgApp, "sharedEncryption") {
 						return pathStop
 					}
 				}
